@@ -56,7 +56,9 @@ func (l *Listener) Expect(ctx context.Context, from jid.JID, sid string) (net.Co
 	if ok {
 		e.cancel()
 	}
-	e.c = make(chan *Conn)
+	// The channel is buffered so that handing over the connection (which happens
+	// in the session's serve loop) never blocks, even if we have stopped waiting.
+	e.c = make(chan *Conn, 1)
 	ctx, cancel := context.WithCancel(ctx)
 	e.cancel = cancel
 	l.expected[key] = e
@@ -64,6 +66,13 @@ func (l *Listener) Expect(ctx context.Context, from jid.JID, sid string) (net.Co
 
 	select {
 	case <-ctx.Done():
+		// We are no longer waiting: do not leave our entry behind for a later
+		// open request to be handed to nobody.
+		l.eLock.Lock()
+		if cur, ok := l.expected[key]; ok && cur.c == e.c {
+			delete(l.expected, key)
+		}
+		l.eLock.Unlock()
 		return nil, ctx.Err()
 	case conn, ok := <-e.c:
 		if !ok {
